@@ -50,7 +50,7 @@ claimed.update({
 })
 
 _conc_note = " Plus a concurrent mode: the property's own conflict scenario (one batch per sample) under seeded schedules, complete single-preemption sweeps and a two-preemption sweep with a competitor parked holding the lock, judged by porcupine linearizability and the standing invariants."
-for _k in ("C06", "C09", "C10", "C11", "C14", "C15", "C16", "C20"):
+for _k in ("C06", "C08", "C09", "C10", "C11", "C14", "C15", "C16", "C20"):
     _l, _e, _t, _tech = claimed[_k]
     claimed[_k] = (_l, _e + "+conc", _t + _conc_note, _tech + "; seeded schedule search + preemption sweeps for the concurrent mode")
 
